@@ -4,7 +4,7 @@
    the step; the spec's step must produce exactly that projection. *)
 EXTENDS LlcpConn, Json, IOUtils, TLCExt
 VARIABLES tid, l
-tvars == <<cl, lst, acc, ab, ba, nacc, tid, l>>
+tvars == <<cl, lst, acc, ab, ba, nacc, lost, tid, l>>
 Traces == ndJsonDeserialize(IOEnv.TRACE_FILE)
 T == Traces[tid].ev
 C == Traces[tid].const
@@ -20,26 +20,27 @@ TInit == /\ tid \in 1..Len(Traces) /\ l = 1
          /\ cl = [c \in Clients |-> [st |-> "CLOSED", rmiu |-> C.cl[c].rmiu, rw |-> C.cl[c].rw, smiu |-> 128, swin |-> 0,
                                      peer |-> 0, res |-> "-"]]
          /\ lst = [st |-> IF ListenerPresent THEN "LISTEN" ELSE "NONE", rmiu |-> C.lrmiu, rw |-> C.lrw, rq |-> <<>>]
-         /\ acc = <<>> /\ ab = <<>> /\ ba = <<>> /\ nacc = 0
+         /\ acc = <<>> /\ ab = <<>> /\ ba = <<>> /\ nacc = 0 /\ lost = FALSE
 Step == l <= Len(T) /\ l' = l + 1 /\ UNCHANGED tid
 Is(a) == l <= Len(T) /\ Ev.a = a
 Guarded == \/ Is("Connect") /\ Step /\ Connect(Ev.c)
            \/ Is("DeliverA") /\ Step /\ DeliverA
            \/ Is("DeliverB") /\ Step /\ DeliverB
            \/ Is("Accept") /\ Step /\ Accept
+           \/ Is("AcceptSend") /\ Step /\ AcceptSend
            \/ Is("CloseClient") /\ Step /\ CloseClient(Ev.c)
            \/ Is("RecvNone") /\ Step /\ RecvNone(Ev.c)
            \/ Is("CloseAcc") /\ Step /\ CloseAcc(Ev.i)
            \/ Is("RecvNoneAcc") /\ Step /\ RecvNoneAcc(Ev.i)
 PostOk == Proj = Ev.post
-InvOk == AgreementP(cl', acc') /\ Len(lst'.rq) <= Backlog
+InvOk == AgreementP(cl', acc') /\ Len(lst'.rq) <= Backlog /\ ~lost'
 Real == Guarded /\ PostOk /\ InvOk
 Why == IF ~ENABLED Guarded THEN [clause |-> "guard", cl |-> [c \in Clients |-> cl[c].st], ab |-> Len(ab), ba |-> Len(ba)]
        ELSE IF ~ENABLED (Guarded /\ PostOk) THEN [clause |-> "post", cl |-> [c \in Clients |-> PC(cl[c])], ab |-> PW(ab), ba |-> PW(ba)]
        ELSE [clause |-> "inv", cl |-> [c \in Clients |-> cl[c].st], ab |-> Len(ab), ba |-> Len(ba)]
 Stuck == /\ l <= Len(T) /\ ~ENABLED Real
          /\ PrintT(<<"STUCK", Traces[tid].id, l, Ev.a, Why>>)
-         /\ l' = Len(T) + 2 /\ UNCHANGED <<cl, lst, acc, ab, ba, nacc, tid>>
+         /\ l' = Len(T) + 2 /\ UNCHANGED <<cl, lst, acc, ab, ba, nacc, lost, tid>>
 TNext == Real \/ Stuck
 TSpec == TInit /\ [][TNext]_tvars
 Done == (l = Len(T) + 1) => PrintT(<<"ACCEPT", Traces[tid].id>>)
